@@ -12,21 +12,27 @@ pub_* tables of every module and the resolved reference slots.
 from __future__ import annotations
 
 import itertools
+import re
 import time
 
 from mc import core, fordrun
 from mc.core import Stats
 
 PROP = "C06"
-KINDS = ["type", "subroutine", "function", "generic", "absint", "variable", "ctor"]
-TABLE = {"type": "types", "subroutine": "procs", "function": "procs", "generic": "procs", "absint": "absinterfaces", "variable": "vars"}
-PREFIX = {"type": "t", "subroutine": "s", "function": "f", "generic": "g", "absint": "a", "variable": "v", "ctor": "k"}
+KINDS = ["type", "subroutine", "function", "generic", "absint", "variable", "ctor", "operator"]
+TABLE = {"type": "types", "subroutine": "procs", "function": "procs", "generic": "procs", "absint": "absinterfaces", "variable": "vars", "operator": "procs"}
+PREFIX = {"type": "t", "subroutine": "s", "function": "f", "generic": "g", "absint": "a", "variable": "v", "ctor": "k", "operator": "o"}
+
+
+def ename(k, pq, tag):
+    """name of the public (p) / private (q) entity of kind k in the module tagged `tag`"""
+    return f"operator(.o{pq}{tag}.)" if k == "operator" else f"{PREFIX[k]}{pq}{tag}"
 # "ctor" = a derived type and a generic interface (structure-constructor overload) sharing one name: one identifier
 # that lives in two of FORD's tables (types and procs)
 # when set, every using scope first names a module that is nowhere in the project (a third-party library): the USE
 # statements after it must be treated exactly as without it
 THIRD_PARTY_FIRST = [False]
-FORMS = ["plain", "only", "rename", "only+rename", "prefix", "dcolon-only", "two-stmts", "only-empty", "only-upper", "only-twice"]
+FORMS = ["plain", "only", "rename", "only+rename", "prefix", "dcolon-only", "two-stmts", "only-empty", "only-upper", "only-twice", "only-blank"]
 
 
 class Mod:
@@ -35,9 +41,9 @@ class Mod:
         self.uses = list(uses)  # (Mod, form)
         self.own = []  # (name, kind, accessible)
         for k in KINDS if tag == "a" else ["type", "subroutine"]:
-            self.own.append((f"{PREFIX[k]}p{tag}", k, True))
+            self.own.append((ename(k, "p", tag), k, True))
             if tag == "a":
-                self.own.append((f"{PREFIX[k]}q{tag}", k, False))
+                self.own.append((ename(k, "q", tag), k, False))
         self.publist_kinds = publist_kinds
         self.hide_imported = hide_imported
         self._imports = None
@@ -121,6 +127,12 @@ class Mod:
                 if self.default != "private":
                     L.append(f"  private :: {n}_i")
                 cont += [f"  subroutine {n}_i(x)", "    integer :: x", f"  end subroutine {n}_i"]
+            elif k == "operator":
+                impl = "op_" + re.sub(r"\W", "", n)
+                L += [f"  interface {n}", f"    module procedure {impl}", "  end interface"]
+                if self.default != "private":
+                    L.append(f"  private :: {impl}")
+                cont += [f"  integer function {impl}(x, y)", "    integer, intent(in) :: x, y", f"    {impl} = x + y", f"  end function {impl}"]
             elif k == "subroutine":
                 cont += [f"  subroutine {n}()", f"  end subroutine {n}"]
             elif k == "function":
@@ -137,17 +149,20 @@ def use_semantics(E, modname, form, tag):
     first = {}
     for n in names:
         first.setdefault(E[n][2], n)
-    half = [n for n in names if E[n][2] in ("type", "function", "variable", "ctor")]
+    half = [n for n in names if E[n][2] in ("type", "function", "variable", "ctor", "operator")]
     ren = [(f"l{tag}{E[first[k]][2][0]}", first[k]) for k in ("type", "subroutine") if k in first]
     imp = {}
     if form == "plain":
         return dict(E), [f"use {modname}"]
     if form == "prefix":
         return dict(E), [f"use, non_intrinsic :: {modname}"]
-    if form in ("only", "dcolon-only", "only-upper"):
+    if form in ("only", "dcolon-only", "only-upper", "only-blank"):
         for n in half:
             imp[n] = E[n]
         lst = ", ".join(half)
+        if form == "only-blank":
+            # a generic specification written with a blank: `operator (.x.)`
+            return imp, [f"use {modname}, only: " + lst.replace("operator(", "operator (")]
         if form == "only-upper":
             return imp, [f"USE {modname.upper()}, ONLY : {lst.upper()}"]
         if not half:
@@ -207,7 +222,7 @@ def use_semantics(E, modname, form, tag):
     raise ValueError(form)
 
 
-CONSUMERS = ["module", "modproc", "internal", "ifacebody", "program", "external"]
+CONSUMERS = ["module", "modproc", "internal", "ifacebody", "program", "external", "submodule", "submodproc"]
 
 
 def consumer_source(kind, used, tagc="z"):
@@ -248,6 +263,15 @@ def consumer_source(kind, used, tagc="z"):
     elif kind == "internal":
         src = (["module cmod", "  implicit none", "contains", "  subroutine outer()", "    call cons()", "  contains", "    subroutine cons()"]
                + ["    " + l for l in U] + ["    " + l for l in D + B] + ["    end subroutine cons", "  end subroutine outer", "end module cmod"])
+    elif kind == "submodule":
+        # USE in the specification part of a submodule (its ancestor module uses nothing); references from a procedure of the submodule
+        src = (["module cmod", "  implicit none", "  interface", "    module subroutine smp()", "    end subroutine smp", "  end interface", "end module cmod",
+                "submodule (cmod) asub"] + U + ["  implicit none", "contains", "  subroutine cons()"] + ["  " + l for l in D + B] + ["  end subroutine cons",
+                "  module subroutine smp()", "  end subroutine smp", "end submodule asub"])
+    elif kind == "submodproc":
+        src = (["module cmod", "  implicit none", "  interface", "    module subroutine smp()", "    end subroutine smp", "  end interface", "end module cmod",
+                "submodule (cmod) asub", "  implicit none", "contains", "  subroutine cons()"] + ["  " + l for l in U] + ["  " + l for l in D + B] + ["  end subroutine cons",
+                "  module subroutine smp()", "  end subroutine smp", "end submodule asub"])
     elif kind == "ifacebody":
         # USE inside an interface body declared in a module procedure: only declarations are possible there
         D2 = [l for l in D if "type(" in l]
@@ -261,6 +285,9 @@ def find_consumer(project, kind):
         return project.programs[0]
     if kind == "external":
         return [p for p in project.procedures if p.name == "cons"][0]
+    if kind in ("submodule", "submodproc"):
+        sm = [m for m in project.submodules if m.name == "asub"][0]
+        return [p for p in sm.subroutines if p.name == "cons"][0]
     cm = [m for m in project.modules if m.name == "cmod"][0]
     if kind in ("module", "modproc"):
         return cm.subroutines[0]
@@ -445,6 +472,11 @@ def gen_cases(tier):
             for c in ("modproc", "program", "module"):
                 yield ("double", dA, ("plain", f2), "none", c, False)
                 yield ("double", dA, (f2, "plain"), "none", c, False)
+        # a submodule (or a procedure of it) using a re-exporting module that its ancestor module does not use
+        for f1, f2 in itertools.product(["plain", "only", "rename", "only+rename"], repeat=2):
+            for dB in ("none", "private"):
+                for c in ("submodule", "submodproc"):
+                    yield ("chain2", dA, (f1, f2), dB, c, False)
         # an unknown (third-party) module named before the project modules in every using scope
         for f in F:
             for c in cons_all:
